@@ -269,7 +269,7 @@ func registerAll() {
 
 func TestPropLists(t *testing.T) {
 	registerAll()
-	ev.Rapid(t, "lists", ev.N(1500, 15000), genCase, judged)
+	ev.Rapid(t, "lists", ev.N(5000, 15000), genCase, judged)
 }
 
 func TestPropTokens(t *testing.T) {
